@@ -24,7 +24,10 @@ RULE = (
     "of 8 (the same name recurs at several depths and as dict key); S = subset of pool + absent names (thorough: all 2^8 subsets of the "
     "pool per graph family, quick: seeded subsets incl. empty and full); T = seeded list of types from {ndarray, Tensor, Parameter, int, float, "
     "str, bool, list, tuple, dict, set, Path, np.float64, Leaf (an AutoSerialize class with a subclass), NoneType, np.generic, np.complexfloating, np.datetime64, "
-    "np.number}; every object also carries a complex / datetime64 / timedelta64 / bytes_ NumPy scalar (stored as a flagged 0-d array) and array-ish type lists "
+    "np.number}; virtual skip types (isinstance is not an MRO lookup): collections.abc Mapping / MutableMapping / Sequence / MutableSequence / Set / Sized / Iterable / Container / Collection / "
+    "Hashable / Callable, numbers Number / Complex / Real / Integral, os.PathLike, typing SupportsFloat / SupportsIndex / SupportsComplex, own ABCs with register()ed classes (also through a "
+    "sub-ABC's registry), an ABC with __subclasshook__, a class whose metaclass defines __instancecheck__ - each alone on a 'zoo' graph (every value kind at depths 1..3) and on a seeded family, "
+    "mixed with concrete types / names / load-time lists, in bare form, on the 55-level chain, the 1100-attribute object and nn.Module roots; every object also carries a complex / datetime64 / timedelta64 / bytes_ NumPy scalar (stored as a flagged 0-d array) and array-ish type lists "
     "([ndarray], [ndarray, Tensor], [generic], ...) run on every family; both stores alternate. "
     "root nn.Module+AutoSerialize objects (both MRO orders) x 9 fixed + seeded name sets over {2 sub-modules, 2 parameters, 2 buffers, 6 plain attributes incl. a nested "
     "object} x type lists x both stores; Ptychography.save skip forms and shared skip lists. "
@@ -39,6 +42,8 @@ ASSUMPTIONS = [
     "skip names are attribute names of the graph or absent names, never names of methods / class attributes of the classes involved",
     "type skipping is judged at save time only (isinstance semantics on the in-memory value); load-time skipping is judged for names",
     "expected value = in-memory pruning of the no-skip round trip, so the C01 relaxations cancel; comparison is deq 'loaded' (strict, rng/logger by kind)",
+    "a listed type may be any class object, including ABCs / protocols / metaclass-checked classes; the virtual types used decide isinstance(v, T) by type(v) alone "
+    "(== issubclass(type(v), T)) and are importable under the module.qualname the serializer records",
     "attribute names are free of '/' and of the serializer's reserved metadata names (as in C01)",
     "root objects that are nn.Module and AutoSerialize (both MRO orders): a skipped name may address a sub-module, parameter, buffer (persistent or not) or plain attribute; the "
     "loaded object is judged with hasattr, state_dict keys, named_children and named_buffers/parameters against the pruned no-skip round trip (classifier nested_kind=root_hybrid, "
@@ -49,7 +54,7 @@ ASSUMPTIONS = [
 BUDGET = {"quick": {"soft_s": 300}, "thorough": {"soft_s": 1200}}
 MIN_EVALUATIONS = {"quick": 150, "thorough": 2000}
 REQUIRED_COUNTERS = ["eval:save_time_skip", "eval:load_time_skip", "eval:save_and_load_skip", "eval:ptycho_skip_forms_differ", "eval:ptycho_skipped_name_present",
-                     "eval:root_hybrid_skip", "eval:root_hybrid_state_dict", "eval:root_hybrid_named_modules"]
+                     "eval:root_hybrid_skip", "eval:root_hybrid_state_dict", "eval:root_hybrid_named_modules", "removed_by_virtual_type", "virtual_type_cases"]
 EXHAUSTIVE = {"quick": False, "thorough": False}
 
 POOL = ["a", "b", "c", "d", "e", "f", "g", "h"]
@@ -60,6 +65,13 @@ TYPE_NAMES = ["ndarray", "Tensor", "Parameter", "int", "float", "str", "bool", "
 # type lists that meet the NumPy scalars stored as flagged 0-d arrays (complex / datetime64 / timedelta64 / bytes_): run on every family
 ARRAYISH_TYPE_LISTS = [["ndarray"], ["ndarray", "Tensor"], ["generic"], ["complexfloating", "ndarray"], ["datetime64"], ["Tensor", "number"]]
 N_FAMILIES = {"quick": 12, "thorough": 10}
+# skip types whose isinstance() is not a lookup in type(value).__mro__ (ABCs with registered / __subclasshook__ subclasses, runtime protocols,
+# metaclass __instancecheck__); the classes are in vf/props/c14_types.py (imported in workers only)
+VIRTUAL_TYPE_NAMES = ["abc.Mapping", "abc.MutableMapping", "abc.Sequence", "abc.MutableSequence", "abc.Set", "abc.Sized", "abc.Iterable", "abc.Container", "abc.Collection",
+                      "abc.Hashable", "abc.Callable", "numbers.Number", "numbers.Complex", "numbers.Real", "numbers.Integral", "os.PathLike", "typing.SupportsFloat",
+                      "typing.SupportsIndex", "typing.SupportsComplex", "c14.Registered", "c14.RegisteredNarrow", "c14.Hooked", "c14.ByMeta"]
+# for nn.Module-based roots: virtual types that no nn.Module-internal attribute (dicts, sets, bools, None) is an instance of
+ROOT_NET_VIRTUAL_TYPES = [["c14.Registered"], ["c14.Hooked"], ["os.PathLike", "c14.RegisteredNarrow", "str"], ["typing.SupportsComplex", "c14.Registered"]]
 
 
 ROOT_NET_SKIPS = [["head"], ["scale", "note"], ["running_mean", "scratch", "history", "absent_name"], ["encoder", "frozen", "child", "meta", "stamp", "plain_t"],
@@ -157,6 +169,51 @@ def plan(tier, seed):
             k2 = int(rng.integers(0, 5))
             S2 = [POOL[int(i)] for i in sorted(rng.permutation(8)[:k2])]
         specs.append({"family": fam, "S": S, "T": T, "S2": S2, "store": "zip" if r % 2 else "dir", "scalar_skip": r % 13 == 5 and len(S) + len(T) == 1})
+    # ---- virtual skip types: isinstance(value, T) holds although T is not in type(value).__mro__ (appended last: earlier case indices unchanged)
+    quick = tier == "quick"
+    nv = len(VIRTUAL_TYPE_NAMES)
+    for j, tn in enumerate(VIRTUAL_TYPE_NAMES):
+        # each type alone on the 'zoo' graph (one attribute of every value kind on every object, depths 1..3), list and bare form
+        for store in (("zip", "dir")[(j + seed) % 2],) if quick else ("zip", "dir"):
+            specs.append({"family": "zoo", "S": [], "T": [tn], "S2": None, "store": store, "scalar_skip": (j + seed + (store == "dir")) % 3 == 0, "_must_run": quick})
+        # ... and on seeded families next to a name, sometimes with a concrete type and a different load-time list
+        for rep_ in range(1 if quick else 5):
+            fam = int(rng.integers(nfam))
+            S = [POOL[int(i)] for i in sorted(rng.permutation(8)[: int(rng.integers(0, 3))])]
+            T = [tn] + ([TYPE_NAMES[int(rng.integers(len(TYPE_NAMES)))]] if rng.random() < 0.4 else [])
+            if rng.random() < 0.5:
+                T = T[::-1]
+            S2 = [POOL[int(i)] for i in sorted(rng.permutation(8)[: int(rng.integers(0, 4))])] if rng.random() < 0.25 else None
+            specs.append({"family": fam, "S": S, "T": T, "S2": S2, "store": "zip" if (j + rep_) % 2 else "dir", "scalar_skip": len(S) + len(T) == 1 and rng.random() < 0.3})
+    for r in range(36 if quick else 300):
+        fam = "zoo" if r % 5 == 0 else int(rng.integers(nfam))
+        T = [VIRTUAL_TYPE_NAMES[int(i)] for i in sorted(rng.permutation(nv)[: int(rng.integers(1, 4))])]
+        T += [TYPE_NAMES[int(i)] for i in sorted(rng.permutation(len(TYPE_NAMES))[: int(rng.integers(0, 3))])]
+        T = [T[int(i)] for i in rng.permutation(len(T))]
+        S = [POOL[int(i)] for i in sorted(rng.permutation(8)[: int(rng.integers(0, 4))])]
+        if rng.random() < 0.3:
+            S = S + [ABSENT[int(rng.integers(3))]]
+        S2 = [POOL[int(i)] for i in sorted(rng.permutation(8)[: int(rng.integers(0, 5))])] if r % 4 == 1 else None
+        specs.append({"family": fam, "S": S, "T": T, "S2": S2, "store": "zip" if r % 2 else "dir"})
+    # size thresholds with a virtual type: the same int / list / str attributes at 55 levels; 660 of 1100 attributes are numbers.Real
+    specs.append({"family": "deep", "S": [], "T": ["numbers.Integral"], "S2": None, "store": "dir", "_must_run": quick})
+    specs.append({"family": "deep", "S": ["b"], "T": ["abc.Sequence", "ndarray"], "S2": ["a"], "store": "zip"})
+    specs.append({"family": "wide", "S": ["a0002", "arr03"], "T": ["numbers.Real"], "S2": None, "store": "zip" if seed % 2 else "dir"})
+    # nn.Module + AutoSerialize roots
+    rv = 0
+    for cls in ("RootNetModuleFirst", "RootNetSerializeFirst"):
+        for store in ("zip", "dir"):
+            for T in ROOT_NET_VIRTUAL_TYPES:
+                rv += 1
+                if quick and (rv + seed) % 2:
+                    continue
+                S = [["note"], ["encoder", "meta"], [], ["scale", "history"], ["child", "absent_name"]][rv % 5]
+                specs.append({"kind": "root_hybrid", "cls": cls, "store": store, "S": S, "T": T, "S2": ["stamp"] if rv % 3 == 0 else None, "scalar_skip": not S and len(T) == 1,
+                              "variant": rv % 5, "_must_run": quick and rv <= 4})
+    # the library's own user of skip lists with an ABC
+    for store in ("zip", "dir"):
+        for item in ("type:abc.Mapping", "type:numbers.Number"):
+            specs.append({"kind": "ptycho", "store": store, "raw": store == "dir", "item": item})
     return specs
 
 
@@ -175,6 +232,10 @@ def setup(ctx):
         "list": list, "tuple": tuple, "dict": dict, "set": set, "Path": Path, "float64": np.float64, "Leaf": sergraph.Leaf, "NoneType": type(None),
         "generic": np.generic, "complexfloating": np.complexfloating, "datetime64": np.datetime64, "number": np.number,
     }
+    from vf.props import c14_types
+
+    assert sorted(c14_types.VIRTUAL_TYPES) == sorted(VIRTUAL_TYPE_NAMES)
+    class_map.update(c14_types.VIRTUAL_TYPES)
     ctx.state.update(load=load, sg=sergraph, deq=deq, types=class_map, pt=None)
     os.makedirs(os.path.join(ctx.tmp, "c14"), exist_ok=True)
 
@@ -201,11 +262,12 @@ def _np_scalar_without_json_form(rng, which):
     return np.datetime64("2020-01-01T00:00:00.000000001") + np.timedelta64(int(rng.integers(1, 999)), "ns")
 
 
-def _value(rng, sg, names):
+def _value(rng, sg, names, c=None):
     import numpy as np
     from pathlib import Path
 
-    c = int(rng.integers(26))
+    if c is None:
+        c = int(rng.integers(26))
     if c == 24:
         return sg.build_kind("arr:layout:" + ["transposed", "stride2", "readonly", "broadcast", "view_of_torch"][int(rng.integers(5))], rng)
     if c == 25:
@@ -308,6 +370,25 @@ def build_graph(seed, family, sg):
             q.payload = [i, "x"]
             o = q
         return o
+    if family == "zoo":  # one attribute of every value kind on every object, depths 1..3, pool names recur at every depth
+        rng = np.random.default_rng([int(seed), 14, 11])
+
+        def level(cls, depth):
+            o = cls()
+            o.payload = sg.make_array(rng, "float32", "1d")
+            o.meta = {"depth": depth, "payload": "a dict key, not an attribute"}
+            o.stamp = _np_scalar_without_json_form(rng, int(rng.integers(6)))
+            for c in range(26):
+                setattr(o, "k%02d" % c, _value(rng, sg, [POOL[int(i)] for i in rng.permutation(8)], c))
+            for nm in POOL[3:]:
+                setattr(o, nm, _value(rng, sg, [POOL[int(i)] for i in rng.permutation(8)]))
+            if depth == 1:
+                o.a, o.b, o.c = level(sg.Leaf, 2), level(sg.Other, 2), level(sg.SubLeaf, 2)
+            elif depth == 2:
+                setattr(o, POOL[int(rng.integers(3))], level([sg.Leaf, sg.Other, sg.SubLeaf, sg.Node][int(rng.integers(4))], 3))
+            return o
+
+        return level(sg.Node, 1)
     rng = np.random.default_rng([int(seed), 14, 7, int(family)])
     x = _obj(rng, sg, 1, 3 if family % 4 else 4, sg.Node, hybrid=family % 3 == 2)
     if family % 4 == 1:
@@ -369,7 +450,7 @@ def _prune(r0, x, names, types, deq, removed, depth=1):
         if nm in xs:
             xv = xs[nm]
             if types and isinstance(xv, types):
-                removed.append((depth, nm, "type"))
+                removed.append((depth, nm, "type" if any(t in type(xv).__mro__ for t in types) else "vtype"))
                 continue
             if deq.is_autoserialize(xv) and deq.is_autoserialize(rv):
                 rv = _prune(rv, xv, names, types, deq, removed, depth + 1)
@@ -447,7 +528,7 @@ def _run_ptycho(spec, idx, ctx):
     store, raw, item = spec["store"], spec["raw"], spec["item"]
     nested = item.startswith("nested:")
     if item.startswith("type:"):
-        val = {"Tensor": torch.Tensor, "ndarray": np.ndarray}[item[5:]]
+        val = ctx.state["types"][item[5:]]
     else:
         val = item.split(":")[-1]
     if isinstance(val, str) and not nested and val not in vars(pt):
@@ -780,7 +861,10 @@ def _finish(ctx, spec, x, exp1, rem1, S, Tn, S2, store):
     sig = hashlib.sha1(repr((spec["family"], sorted(S), sorted(Tn), sorted(S2))).encode()).hexdigest()[:16]
     ctx.nontrivial(sig, bool(deep_hits) and survivors >= 1)
     ctx.count("removed_by_name", sum(1 for r in rem1 if r[2] == "name"))
-    ctx.count("removed_by_type", sum(1 for r in rem1 if r[2] == "type"))
+    ctx.count("removed_by_type", sum(1 for r in rem1 if r[2] in ("type", "vtype")))
+    ctx.count("removed_by_virtual_type", sum(1 for r in rem1 if r[2] == "vtype"))  # instance of a listed type that is not in type(value).__mro__
+    if any(t in VIRTUAL_TYPE_NAMES for t in Tn):
+        ctx.count("virtual_type_cases")
     ctx.count("store:" + store)
     ctx.observe(family=spec["family"], S=S, T=Tn, S2=S2, removed=[list(r) for r in rem1[:8]], removed_depth_ge2=len(deep_hits), survivors=survivors, total_attrs=_count_attrs(x, dq))
 
